@@ -332,11 +332,20 @@ def single_assignments(fn):
     for n in ast.walk(fn):
         if isinstance(n, ast.Assign):
             for t in n.targets:
-                for x in ast.walk(t):
-                    if isinstance(x, ast.Name):
-                        count[x.id] = count.get(x.id, 0) + 1
-                        if x is t:
-                            val[x.id] = n.value
+                if isinstance(t, ast.Name):
+                    count[t.id] = count.get(t.id, 0) + 1
+                    val[t.id] = n.value
+                elif isinstance(t, (ast.Tuple, ast.List)):
+                    for x in ast.walk(t):
+                        if isinstance(x, ast.Name) and isinstance(x.ctx, ast.Store):
+                            count[x.id] = count.get(x.id, 0) + 2
+                else:
+                    # x[i] = … / x.a = …: x is mutated, never a plain alias of its initial value
+                    b = t
+                    while isinstance(b, (ast.Subscript, ast.Attribute)):
+                        b = b.value
+                    if isinstance(b, ast.Name):
+                        count[b.id] = count.get(b.id, 0) + 2
         elif isinstance(n, (ast.AugAssign, ast.AnnAssign, ast.For, ast.comprehension, ast.NamedExpr)):
             for x in ast.walk(n.target):
                 if isinstance(x, ast.Name):
